@@ -243,3 +243,7 @@ impl Spawner for NtsPoolSpawner {
         "nts-pool"
     }
 }
+
+#[cfg(pendulum_project_ntpd_rs_verif)]
+#[path = "/verif/hooks/ntpd_nts_pool.rs"]
+pub mod verif_hook;
